@@ -11,11 +11,11 @@ from pathlib import Path
 VERIF = Path(__file__).resolve().parent.parent
 OUT = VERIF / "seeded"
 rows = []
-for sd in sorted(glob.glob("/tmp/seed_C*/m?")):
+for sd in sorted(glob.glob("/tmp/seed_C*/m?")) + sorted(glob.glob("/tmp/seed2_C*/m?")):
     sd = Path(sd)
     if not (sd / "patch.diff").exists() or not (sd / "demo.py").exists():
         continue
-    sid = f"{sd.parent.name[5:]}_{sd.name}"
+    sid = re.sub(r"^seed(\d*)_", lambda m: ("r" + m.group(1) + "_") if m.group(1) else "", sd.parent.name) + "_" + sd.name
     meta = json.loads((sd / "meta.json").read_text()) if (sd / "meta.json").exists() else {}
     suite = json.loads((sd / "suite.json").read_text()) if (sd / "suite.json").exists() else None
     checks = {}
@@ -34,7 +34,7 @@ for sd in sorted(glob.glob("/tmp/seed_C*/m?")):
     demo_wo = (suite.get("demo_without_change") or {}).get("exit")
     new_fail = (suite.get("suite") or {}).get("new_failures")
     ok = suite.get("patch_applies") and demo_w == 1 and demo_wo == 0 and new_fail == []
-    labelled = meta.get("property") or sd.parent.name[5:]
+    labelled = meta.get("property") or re.search(r"(C\d\d)", sd.parent.name).group(1)
     dst = OUT / sid
     if not ok:
         print(f"NOT KEPT {sid}: applies={suite.get('patch_applies')} demo={demo_w}/{demo_wo} new_failures={new_fail}")
